@@ -133,6 +133,7 @@ class Project(MessageHandler):
         self.scoreboardNoLeaves: Optional[Scoreboard] = None
 
         self.reportContexts: list[Any] = []
+        self._scheduleCompleted: bool = False
         self.outputDir: str = "./"
         self.warnTsDeltas: bool = False
 
@@ -311,6 +312,13 @@ class Project(MessageHandler):
         return 60 * 60
 
     def schedule(self) -> bool:
+        # Scheduling a project again must not change anything (the CLI schedules a second
+        # time after parsing). Tasks that are placed are skipped anyway, but a task that
+        # could not be placed would be tried again on top of the bookings of its first
+        # attempt - every call would add to the resource usage.
+        if self._scheduleCompleted:
+            return True
+
         # Extend project end if tasks require more time
         self._extendProjectEndIfNeeded()
 
@@ -341,6 +349,7 @@ class Project(MessageHandler):
             # Finish
             self.finishScenario(scIdx)
 
+        self._scheduleCompleted = True
         return True
 
     def prepareScenario(self, scIdx: int) -> None:
